@@ -230,3 +230,10 @@ also("C05", "identity rule on the bank list", "Also decides that the RAM banks r
 also("C09", "effects analysis with channel operations", "Channel sends, receives and selects on a channel shared between calls count as interference.")
 also("C15", "who-may-call rule on file-system mutations in the command layer", "Also decides that the endorse command layer writes no file outside the gated version-control path.")
 also("C16", "loop-state rule on the event collector", "Also decides that what is reported for an event depends on that event alone (no cross-event de-duplication).")
+# seed round 17
+also("C07", "length rule on slice-to-array conversions; non-zero rule on divisors", "Also decides that a slice is converted to an array only with its length established, and that no division is by a value that may be zero.")
+also("C08", "length rule on slice-to-array conversions; non-zero rule on divisors", "Also decides that no decoded count or size is divided by without being known non-zero.")
+also("C10", "lock pairing (may-held analysis per function)", "Also decides that every mutex taken is released on every exit, so a failed step cannot leave the authority locked for the next rotation.")
+also("C11", "writer/reader agreement on the stored encoding", "Also decides that what the uploader stores under a manifest-listed name is in the encoding the reader parses.")
+also("C14", "guard rule on the shared repository list", "Also decides that the primary repository joins the list of repositories only where the list was empty, so one repository is not submitted to twice.")
+also("C17", "freshness of the returned object on every path", "Also decides that the derived policy is an object made in the call on every returning path, never the caller's base.")
